@@ -15,6 +15,7 @@ import (
 	"context"
 	"fmt"
 	"strings"
+	"sync/atomic"
 	"testing"
 	"testing/synctest"
 	"time"
@@ -48,7 +49,14 @@ func TestC20Free(t *testing.T) {
 		}
 		// a context type that reports its end through Err() only (its Done channel never closes)
 		errOnly := (cancelAfter >= 0 || deadlineTicks >= 0) && rapid.IntRange(0, 2).Draw(t, "errOnlyCtx") == 0
-		trace := []string{fmt.Sprintf("count=%d rate=%v pauses(half rates)=%v cancelAfter=%d deadlineAfterTicks=%d errOnlyCtx=%v", count, rate, pat, cancelAfter, deadlineTicks, errOnly)}
+		// or the cancellation lands right after one of the producer's own looks at the context (the k-th call of Err:
+		// the first is LinearAttempt's, the others follow a tick each), and the producer is then held up for 0-4 periods
+		guardAt, guardSleep := -1, 0
+		if cancelAfter < 0 && deadlineTicks < 0 && rate < time.Hour && rapid.IntRange(0, 3).Draw(t, "cancelInGuard") == 0 {
+			guardAt = rapid.IntRange(2, min(count+1, 9)).Draw(t, "guardCall")
+			guardSleep = rapid.IntRange(0, 4).Draw(t, "guardSleep")
+		}
+		trace := []string{fmt.Sprintf("count=%d rate=%v pauses(half rates)=%v cancelAfter=%d deadlineAfterTicks=%d errOnlyCtx=%v cancelInGuardCall=%d(+%d periods)", count, rate, pat, cancelAfter, deadlineTicks, errOnly, guardAt, guardSleep)}
 		vkit.CaseStart(func() string { return strings.Join(trace, " ; ") })
 		var (
 			got          int
@@ -65,6 +73,15 @@ func TestC20Free(t *testing.T) {
 			defer cancel()
 			if errOnly {
 				ctx = c20ErrOnlyCtx{ctx, make(chan struct{})}
+			}
+			inner := ctx
+			var guardFired atomic.Bool
+			if guardAt >= 0 {
+				ctx = c20GuardCtx{ctx, new(atomic.Int32), int32(guardAt), func() {
+					guardFired.Store(true)
+					cancel()
+					time.Sleep(time.Duration(guardSleep) * rate)
+				}}
 			}
 			start := time.Now()
 			c := bigbuff.LinearAttempt(ctx, rate, count)
@@ -93,7 +110,7 @@ func TestC20Free(t *testing.T) {
 				if p := pat[i%len(pat)]; p > 0 {
 					time.Sleep(time.Duration(p) * rate / 2)
 				}
-				expired := ctx.Err() != nil // (a deadline may have passed during the pause)
+				expired := inner.Err() != nil || guardFired.Load() // (a deadline may have passed during the pause)
 				v, ok := <-c
 				if !ok {
 					break
@@ -125,7 +142,7 @@ func TestC20Free(t *testing.T) {
 			vkit.Fail(t, "C20/free-order", "%s\ncase: %v", bad, trace)
 		case got > count:
 			vkit.Fail(t, "C20/more-than-count", "the channel yielded %d values (and counting), count is %d\ncase: %v", got, count, trace)
-		case cancelAfter < 0 && deadlineTicks < 0 && got != count:
+		case cancelAfter < 0 && deadlineTicks < 0 && guardAt < 0 && got != count:
 			vkit.Fail(t, "C20/closed-early", "a receiver that kept receiving got %d values before the channel was closed, count is %d and the context was never cancelled\ncase: %v", got, count, trace)
 		case afterCancel > 2:
 			vkit.Fail(t, "C20/too-many-after-cancel", "%d values were received after the context had been cancelled (at most one buffered and one in flight are possible)\ncase: %v", afterCancel, trace)
@@ -138,6 +155,22 @@ func TestC20Free(t *testing.T) {
 				ties++
 			}
 		}
-		st.Case(trace, ties > 0 && count >= 7, fmt.Sprintf("count:%d", count), map[bool]string{true: "cancelled", false: "to-the-end"}[cancelAfter >= 0 || deadlineTicks >= 0])
+		st.Case(trace, ties > 0 && count >= 7, fmt.Sprintf("count:%d", count), map[bool]string{true: "cancelled", false: "to-the-end"}[cancelAfter >= 0 || deadlineTicks >= 0 || guardAt >= 0])
 	})
+}
+
+// c20GuardCtx runs fire right after it has answered its at-th Err call (the answer is the one computed before).
+type c20GuardCtx struct {
+	context.Context
+	calls *atomic.Int32
+	at    int32
+	fire  func()
+}
+
+func (c c20GuardCtx) Err() error {
+	err := c.Context.Err()
+	if c.calls.Add(1) == c.at {
+		c.fire()
+	}
+	return err
 }
